@@ -302,10 +302,15 @@ def replay_end(model, q):
     e = model.get("end", 1.0)
     h = FinalTimeEndOfRunEventHandler(e)
     t1, t2 = h.send_event_time(), h.send_event_time()
+    normalised = float(t1.quotient).is_integer() and 0.0 <= t1.remainder < 1.0
     if fractions.Fraction(t1.quotient) + fractions.Fraction(t1.remainder) != fractions.Fraction(e) or \
-            (t1.quotient, t1.remainder) != (t2.quotient, t2.remainder):
-        return {"reproduced": True, "what": "end_of_run_time %r gives event time Time(%r,%r) then Time(%r,%r)"
-                                            % (e, t1.quotient, t1.remainder, t2.quotient, t2.remainder),
+            (t1.quotient, t1.remainder) != (t2.quotient, t2.remainder) or not normalised:
+        # an un-normalised Time (fractional quotient) is ordered wrongly by Time.__lt__ and by heap.c, which compare
+        # the quotients first: the run then ends (and samples) at a time other than the configured one
+        return {"reproduced": True, "what": "end_of_run_time %r gives event time Time(%r,%r) then Time(%r,%r)%s"
+                                            % (e, t1.quotient, t1.remainder, t2.quotient, t2.remainder,
+                                               "" if normalised else " (not the normalised representation: integral "
+                                               "quotient, remainder in [0,1))"),
                 "data": {"kind": "end", "end": e.hex()}}
     return {"reproduced": False, "what": "end time fine natively"}
 
